@@ -3,7 +3,8 @@ import copy, json, os, random
 import lib, observe
 
 TYPES = {
-    "Alpha": ("    #[diplomat::opaque]\n    pub struct Alpha(u8);\n",
+    # namespaces (where the backend has them): one header then forward-declares types from several namespace groups
+    "Alpha": ("    #[diplomat::attr(supports = namespacing, namespace = \"n1\")]\n    #[diplomat::opaque]\n    pub struct Alpha(u8);\n",
               {1: "    impl Alpha {\n        #[diplomat::demo(default_constructor)]\n        pub fn new_alpha(v: u8) -> Box<Alpha> { Box::new(Alpha(v)) }\n"
                   "        pub fn with_beta(&self, b: Beta) -> u16 { b.x as u16 }\n        pub fn gamma(&self) -> Gamma { Gamma::One }\n    }\n",
                # the second impl block carries attributes of its own: they belong to THIS block only, wherever it stands
@@ -11,9 +12,9 @@ TYPES = {
                   "    impl Alpha {\n        pub fn extra(&self, w: &mut DiplomatWrite) {}\n        pub fn again<'a>(&'a self) -> &'a Alpha { self }\n    }\n"}),
     "Beta": ("    pub struct Beta {\n        pub x: u8,\n        pub y: u16,\n        pub g: Gamma,\n    }\n",
              {1: "    impl Beta {\n        pub fn sum(self) -> u16 { self.y }\n        pub fn make(x: u8) -> Beta { Beta { x, y: 1, g: Gamma::Two } }\n    }\n"}),
-    "Gamma": ("    pub enum Gamma {\n        One,\n        Two = 5,\n    }\n",
+    "Gamma": ("    #[diplomat::attr(supports = namespacing, namespace = \"n2::deep\")]\n    pub enum Gamma {\n        One,\n        Two = 5,\n    }\n",
               {1: "    impl Gamma {\n        pub fn is_one(self) -> bool { matches!(self, Gamma::One) }\n    }\n"}),
-    "Uno": ("    #[diplomat::opaque]\n    pub struct Uno(u8);\n",
+    "Uno": ("    #[diplomat::attr(supports = namespacing, namespace = \"n3\")]\n    #[diplomat::opaque]\n    pub struct Uno(u8);\n",
             {1: "    impl Uno {\n        pub fn make_uno() -> Box<Uno> { Box::new(Uno(1)) }\n        pub fn val(&self) -> u8 { self.0 }\n    }\n"}),
     "Duo": ("    pub struct Duo {\n        pub a: i32,\n        pub b: bool,\n    }\n",
             {1: "    impl Duo {\n        pub fn first(self) -> i32 { self.a }\n    }\n"}),
@@ -182,6 +183,11 @@ def run(rep, tier):
             # Rerun must really run again; other sources are cached per distinct text
             if a["a"] == "Rerun" or src2 not in cache:
                 out2 = gen(wd, src2, "step")
+                if a["a"] == "Rerun":
+                    # hash-order nondeterminism shows only in some processes: two more fresh runs
+                    for extra_run in range(2):
+                        out3 = gen(wd, src2, "step%d" % extra_run)
+                        compare(rep, a, out2, out3, beh, i, cur_src, src2)
                 if a["a"] != "Rerun":
                     cache[src2] = out2
             else:
